@@ -281,6 +281,17 @@ func runC11(res *lp.Result) {
 		for j, rp := range reps { // NULL through every nillable representation
 			r.roundTrip(vcase{dt, versionFor(j), nil}, rp, j == 0)
 		}
+		// every integer Go representation at ITS OWN extremes (and next to them), where the CQL type holds them
+		if intWidth(dt.Code()) > 0 || dt.Code() == primitive.DataTypeCodeVarint {
+			for j, rp := range reps {
+				for _, e := range goIntExtremes(rp.t) {
+					if w := intWidth(dt.Code()); w > 0 && (e.Cmp(new(big.Int).Neg(pow2(w-1))) < 0 || e.Cmp(pow2(w-1)) >= 0) {
+						continue
+					}
+					r.roundTrip(vcase{dt, versionFor(j), cvI(e)}, rp, false)
+				}
+			}
+		}
 	}
 	cases := 400
 	if thorough() {
@@ -1079,9 +1090,14 @@ func runC04V(res *lp.Result) {
 	}
 	fixed := []datatype.DataType{datatype.NewMap(datatype.Blob, datatype.Int), datatype.NewMap(datatype.Inet, datatype.Varchar),
 		datatype.NewMap(datatype.NewList(datatype.Int), datatype.Int), datatype.NewList(datatype.NewMap(datatype.Blob, datatype.Int)),
-		datatype.NewTuple(), mustUdt(nil), datatype.NewList(datatype.Int), datatype.NewMap(datatype.Varchar, datatype.NewList(datatype.Varint))}
+		datatype.NewTuple(), mustUdt(nil), datatype.NewList(datatype.Int), datatype.NewMap(datatype.Varchar, datatype.NewList(datatype.Varint)),
+		// maps whose key has no comparable Go representation of any shape: UDT (a Go map), map, set, tuple — alone and nested
+		datatype.NewMap(mustUdt([]string{"a"}, datatype.Int), datatype.Int), datatype.NewMap(datatype.NewMap(datatype.Int, datatype.Int), datatype.Varchar),
+		datatype.NewMap(datatype.NewSet(datatype.Int), datatype.Int), datatype.NewMap(datatype.NewTuple(datatype.Int), datatype.Int),
+		datatype.NewList(datatype.NewMap(mustUdt([]string{"a"}, datatype.Int), datatype.Int)),
+		mustUdt([]string{"m"}, datatype.NewMap(datatype.NewMap(datatype.Int, datatype.Int), datatype.Int))}
 	types := append(allScalarTypes(), fixed...)
-	for len(types) < 29+nTypes {
+	for len(types) < 35+nTypes {
 		types = append(types, genType(rng, 1+rng.Intn(3)))
 	}
 	wide := &typeStyle{name: "wide", leafPtr: true, ptrKeys: true, timeAsInt: true}
@@ -1272,4 +1288,29 @@ func inexactFloats(res *lp.Result) {
 			}
 		}
 	}
+}
+
+// goIntExtremes: min, max of a Go integer type (or of the pointed-to type) and their inner neighbours; the midpoint 2^(w-1)
+// for unsigned types (the first value a signed conversion of the same width gets wrong)
+func goIntExtremes(t reflect.Type) []*big.Int {
+	if t.Kind() == reflect.Ptr {
+		t = t.Elem()
+	}
+	var lo, hi *big.Int
+	w := 0
+	switch {
+	case isIntKind(t.Kind()) && t != tDuration:
+		w = t.Bits()
+		lo, hi = new(big.Int).Neg(pow2(w-1)), new(big.Int).Sub(pow2(w-1), big.NewInt(1))
+	case isUintKind(t.Kind()):
+		w = t.Bits()
+		lo, hi = big.NewInt(0), new(big.Int).Sub(pow2(w), big.NewInt(1))
+	default:
+		return nil
+	}
+	out := []*big.Int{lo, new(big.Int).Add(lo, big.NewInt(1)), hi, new(big.Int).Sub(hi, big.NewInt(1))}
+	if isUintKind(t.Kind()) {
+		out = append(out, pow2(w-1), new(big.Int).Add(pow2(w-1), big.NewInt(1)))
+	}
+	return out
 }
